@@ -155,14 +155,14 @@ class Ctx:
             self._cg = CallGraph(self.fx)
         return self._cg
 
-    def region(self, path, depth=None, policy=None, ps=False, key=None):
+    def region(self, path, depth=None, policy=None, ps=False, key=None, skip_root_sites=()):
         """REGION super-graph of a function (by def path, or by key): private local callees inlined.
         policy: None (every non-public plain fn) | "private" (module-private only)."""
         from .cg import region_of_key, private_only_policy
         depth = depth or (8 if self.tier == "thorough" else 4)
         if key is None:
             key = self.fx.fn(path)["key"]
-        k = (key, depth, policy)
+        k = (key, depth, policy, frozenset(skip_root_sites))
         if k not in self._regions:
             if policy == "private":
                 pol = private_only_policy(self.fx)
@@ -173,7 +173,7 @@ class Ctx:
                 pol = lambda fn: base(fn) and fn["path"] not in excl
             else:
                 pol = None
-            self._regions[k] = region_of_key(self.fx, key, depth, pol)
+            self._regions[k] = region_of_key(self.fx, key, depth, pol, frozenset(skip_root_sites))
             self.touch_body(self._regions[k])
         b = self._regions[k]
         if ps and not b.ps:
